@@ -21,6 +21,13 @@ Section TSem.
      | None => Err true
      end).
 
+  (* nfinish with the log of the call it makes *)
+  Definition nfinish_t (o : nop) (a : nacc) : list call * rs val :=
+    match o, a with
+    | NCall f kw, NL l => call1t f kw (rev l)
+    | _, _ => ([], nfinish F o a)
+    end.
+
   Fixpoint evalt (s : store) (e : expr) {struct e} : list call * rs val :=
     match e with
     | EInt z => ([], Ok (VInt z))
@@ -68,23 +75,25 @@ Section TSem.
                end
            end) l
     | ENary o l =>
-        let (r, vs) :=
-          (fix go (l : list expr) : list call * rs (list val) :=
+        (* the strict nodes are folded lazily, exactly as Lang.eval does (ninit / nstep / nfinish) *)
+        let (r, a) :=
+          (fix go (acc : nacc) (l : list expr) : list call * rs nacc :=
              match l with
-             | [] => ([], Ok [])
-             | a :: l' =>
-                 let (r, v) := evalt s a in
+             | [] => ([], Ok acc)
+             | e :: l' =>
+                 let (r, v) := evalt s e in
                  match v with
                  | Err u => (r, Err u)
-                 | Ok x => let (r2, vs) := go l' in (r ++ r2, rmap (cons x) vs)
+                 | Ok x =>
+                     match nstep o acc x with
+                     | None => (r, Err false)
+                     | Some acc' => let (r2, res) := go acc' l' in (r ++ r2, res)
+                     end
                  end
-             end) l in
-        match vs with
+             end) (ninit o) l in
+        match a with
         | Err u => (r, Err u)
-        | Ok vs => match o with
-                   | NCall f kw => let (r2, v) := call1t f kw vs in (r ++ r2, v)
-                   | _ => (r, nary F o vs)
-                   end
+        | Ok acc => let (r2, v) := nfinish_t o acc in (r ++ r2, v)
         end
     end.
 
@@ -102,12 +111,22 @@ Section TSem.
   Definition cond_t (s : store) (c : expr) : list call * rs bool :=
     let (l, v) := evalt s c in (l, rbind v (fun v => lift (truth v))).
 
-  Definition bound_t (s : store) (e : expr) : list call * rs Z :=
-    let (l, v) := evalt s e in
-    (l, rbind v (fun v => match v with
-                          | VInt z => Ok z
-                          | VBool b => Ok (if b then 1 else 0)%Z
-                          | _ => Err false end)).
+  (* range(eval(lo), eval(hi)): both bounds are evaluated, then range() checks the types *)
+  Definition bounds_t (s : store) (lo hi : expr) : list call * rs (Z * Z) :=
+    let (l1, vlo) := evalt s lo in
+    match vlo with
+    | Err u => (l1, Err u)
+    | Ok vl =>
+      let (l2, vhi) := evalt s hi in
+      match vhi with
+      | Err u => (l1 ++ l2, Err u)
+      | Ok vh =>
+        match bound_int vl, bound_int vh with
+        | Ok a, Ok b => (l1 ++ l2, Ok (a, b))
+        | _, _ => (l1 ++ l2, Err false)
+        end
+      end
+    end.
 
   Definition assign_once_t (s : store) (x : var) (sub : option expr) (rhs : expr) : list call * rs store :=
     let (l, v) := evalt s rhs in
@@ -154,17 +173,12 @@ Section TSem.
     match loops with
     | [] => body s
     | (ident, lo, hi) :: ls =>
-        let (r1, vlo) := bound_t s lo in
-        match vlo with
-        | Err u => (r1, Err u)
-        | Ok a =>
-          let (r2, vhi) := bound_t s hi in
-          match vhi with
-          | Err u => (r1 ++ r2, Err u)
-          | Ok b =>
+        let (r, ab) := bounds_t s lo hi in
+        match ab with
+        | Err u => (r, Err u)
+        | Ok (a, b) =>
             let (acc, res) := iter_range_t (Z.to_nat (b - a)) a ident (run_loops_t ls body) s in
-            (r1 ++ r2 ++ acc, res)
-          end
+            (r ++ acc, res)
         end
     end.
 
@@ -281,13 +295,9 @@ Section TSem.
             | (l, Ok false) => run_tree t2 (TRun s evs (log ++ l))
             end
         | TFor x lo hi b =>
-            match bound_t s lo with
-            | (l1, Err u) => TCrash u
-            | (l1, Ok a) =>
-                match bound_t s hi with
-                | (l2, Err u) => TCrash u
-                | (l2, Ok z) => iter_t (Z.to_nat (z - a)) a x (run_tree b) (TRun s evs (log ++ l1 ++ l2))
-                end
+            match bounds_t s lo hi with
+            | (l, Err u) => TCrash u
+            | (l, Ok (a, z)) => iter_t (Z.to_nat (z - a)) a x (run_tree b) (TRun s evs (log ++ l))
             end
         end
     | _ => S
